@@ -86,6 +86,12 @@ static Family life_udp(const std::string &tier)
     c.hosts   = "10.9.9.9 hostsonly.example.com\n";
     f.cfgs.push_back(c);
   }
+  {
+    // non-initial start: two requests already outstanding on one UDP socket
+    Cfg c      = cfg("1srv-2tries-from-two-outstanding", 1, 2, 0);
+    c.preamble = { { EV_REQ, 0, 0 }, { EV_REQ, 1, 0 } };
+    f.cfgs.push_back(c);
+  }
   f.reqs     = life_reqs();
   f.req_menu = { 0, 1, 2, 4, 5, 6, 7, 8, 9, 10, 11, 3 };
   f.replies  = { RK_DATA, RK_SERVFAIL, RK_TC, RK_NXDOMAIN, RK_MALFORMED };
@@ -106,6 +112,12 @@ static Family life_reentrant(const std::string &tier)
   Family f   = life_udp(tier);
   f.name     = "life-reentrant";
   f.cfgs.resize(2);
+  {
+    // non-initial start: a request whose callback re-enters the library and a plain one are outstanding together
+    Cfg c      = cfg("1srv-2tries-from-reentrant-and-plain", 1, 2, 0);
+    c.preamble = { { EV_REQ, 12, 0 }, { EV_REQ, 0, 0 } };
+    f.cfgs.push_back(c);
+  }
   f.req_menu = { 12, 13, 14, 15, 16, 17, 0 };
   f.replies  = { RK_DATA, RK_SERVFAIL, RK_NXDOMAIN };
   f.faults   = { FS_SEND_REFUSED, FS_SOCKET };
@@ -130,6 +142,12 @@ static Family life_tcp(const std::string &tier)
     f.cfgs.push_back(c);
   }
   f.cfgs.push_back(cfg("udp-tc-upgrade-stayopen", 1, 2, ARES_FLAG_STAYOPEN));
+  {
+    // non-initial start: two requests queued on one TCP connection
+    Cfg c      = cfg("usevc-1srv-from-two-queued", 1, 2, ARES_FLAG_USEVC);
+    c.preamble = { { EV_REQ, 0, 0 }, { EV_REQ, 4, 0 } };
+    f.cfgs.push_back(c);
+  }
   f.req_menu = { 0, 4, 2, 14, 12 };
   f.replies  = { RK_DATA, RK_SERVFAIL, RK_TC, RK_MALFORMED };
   f.faults   = { FS_SOCKET, FS_CONNECT, FS_SEND_REFUSED, FS_SEND_SHORT, FS_SEND_WOULDBLOCK, FS_RECV_RESET };
